@@ -13,7 +13,8 @@
  *      iPAddress: exactly 4 octets equal to the four decimal fields of E
  *    - the subject CN (DNS rules) only when the certificate has no dNSName / rfc822Name / iPAddress entry at all and
  *      nameType is ANY, HOSTNAME or CN
- *    - nothing else matches.
+ *    - nothing else matches; in particular the GeneralNames of OTHER extensions (issuerAltName: names of the issuer; cRLDistributionPoints
+ *      fullName: where a CRL lives) never count, whatever kind they are, and do not switch the CN fallback off.
  * Asserted: soundness   library accepts => reference accepts            else c05:accepts:<class>
  *           order       same verdict for every permutation of the list  else c05:order-dependent
  *           completeness the plain positive forms of the statement (exact, other case, *.label wildcard, IPv4, e-mail,
@@ -38,6 +39,9 @@ typedef struct {
     int canonical;           /* 1: plain positive form named in the statement, must be accepted */
     int ncn; struct { int tag, len; unsigned char v[100]; } cn[2];
     int nsan; ent san[4];
+    /* names that describe somebody else: GeneralNames of the issuerAltName extension (carrier bit 1; bit 4: emitted BEFORE the subjectAltName)
+       and / or of a cRLDistributionPoints fullName (bit 2). The reference never looks at them. */
+    int carrier, nian; ent ian[6];
 } ccase;
 
 /* ------------------------------------------------------------------ reference --- */
@@ -101,14 +105,16 @@ static void spec_str(const ccase *c, char *o, size_t n)
     k += snprintf(o + k, n - k, " san=");
     if (!c->nsan) k += snprintf(o + k, n - k, "-");
     for (int i = 0; i < c->nsan; i++) { vf_hex(h, c->san[i].v, c->san[i].len); k += snprintf(o + k, n - k, "%s%d:%s", i ? "," : "", c->san[i].kind, h); }
+    if (c->nian) { k += snprintf(o + k, n - k, " ian=%d/", c->carrier); for (int i = 0; i < c->nian; i++) { vf_hex(h, c->ian[i].v, c->ian[i].len); k += snprintf(o + k, n - k, "%s%d:%s", i ? "," : "", c->ian[i].kind, h); } }
 }
 static int spec_parse(const char *s, ccase *c)
 {
-    char eh[160], cn[500], san[1000]; memset(c, 0, sizeof *c);
-    if (sscanf(s, "cls=%39s kind=%d canon=%d E=%159s cn=%499s san=%999s", c->cls, &c->kindE, &c->canonical, eh, cn, san) != 6) return -1;
+    char eh[160], cn[500], san[1000], ian[1500] = ""; memset(c, 0, sizeof *c);
+    if (sscanf(s, "cls=%39s kind=%d canon=%d E=%159s cn=%499s san=%999s ian=%d/%1499s", c->cls, &c->kindE, &c->canonical, eh, cn, san, &c->carrier, ian) < 6) return -1;
     int n = vf_unhex((unsigned char *) c->E, eh); c->E[n] = 0;
     if (strcmp(cn, "-")) for (char *t = strtok(cn, ","); t && c->ncn < 2; t = strtok(NULL, ",")) { char *col = strchr(t, ':'); if (!col) return -1; c->cn[c->ncn].tag = atoi(t); c->cn[c->ncn].len = vf_unhex(c->cn[c->ncn].v, col + 1); c->ncn++; }
     if (strcmp(san, "-")) for (char *t = strtok(san, ","); t && c->nsan < 4; t = strtok(NULL, ",")) { char *col = strchr(t, ':'); if (!col) return -1; c->san[c->nsan].kind = atoi(t); c->san[c->nsan].len = vf_unhex(c->san[c->nsan].v, col + 1); c->nsan++; }
+    if (ian[0]) for (char *t = strtok(ian, ","); t && c->nian < 6; t = strtok(NULL, ",")) { char *col = strchr(t, ':'); if (!col) return -1; c->ian[c->nian].kind = atoi(t); c->ian[c->nian].len = vf_unhex(c->ian[c->nian].v, col + 1); c->nian++; }
     return 0;
 }
 static void pretty(const unsigned char *v, int n, char *o, size_t cap)
@@ -128,6 +134,15 @@ static void case_text(const ccase *c, const int *perm, char *o, size_t n)
         k += snprintf(o + k, n - k, "%s%s:%s", i ? ", " : "", e->kind >= 0 && e->kind <= 8 ? kn[e->kind] : "tag?", b);
     }
     k += snprintf(o + k, n - k, "]");
+    if (c->nian) {
+        k += snprintf(o + k, n - k, " %s%s%s=[", (c->carrier & 1) ? ((c->carrier & 4) ? "issuerAltName(before SAN)" : "issuerAltName") : "", (c->carrier & 3) == 3 ? "+" : "", (c->carrier & 2) ? "cRLDistributionPoints.fullName" : "");
+        for (int i = 0; i < c->nian && k < n; i++) {
+            const ent *e = &c->ian[i];
+            if (e->kind == CG_GN_IP) { b[0] = 0; for (int j = 0; j < e->len && j < 16; j++) sprintf(b + strlen(b), "%s%u", j ? "." : "", e->v[j]); } else pretty(e->v, e->len, b, sizeof b);
+            k += snprintf(o + k, n - k, "%s%s:%s", i ? ", " : "", e->kind >= 0 && e->kind <= 8 ? kn[e->kind] : "tag?", b);
+        }
+        k += snprintf(o + k, n - k, "]");
+    }
 }
 
 /* ------------------------------------------------------------------ one case --- */
@@ -171,7 +186,15 @@ static void run_case(const ccase *c)
         s.subject.n = 0; cg_dn_add(&s.subject, CG_AT_O, CG_T_UTF8, "Verif C05", 9);
         for (int i = 0; i < c->ncn; i++) cg_dn_add(&s.subject, CG_AT_CN, c->cn[i].tag, c->cn[i].v, c->cn[i].len);
         s.nsan = 0; for (int i = 0; i < c->nsan; i++) cg_san_add(&s, c->san[perm[i]].kind, c->san[perm[i]].v, c->san[perm[i]].len);
-        cg_cert lc; if (cg_make_cert(&s, &lc) < 0) { vf_incon("certgen failed"); return; }
+        cg_buf dpx = { 0 };
+        if (c->nian && (c->carrier & 1)) { for (int i = 0; i < c->nian; i++) cg_ian_add(&s, c->ian[i].kind, c->ian[i].v, c->ian[i].len); s.ian_first = !!(c->carrier & 4); }
+        if (c->nian && (c->carrier & 2)) {   /* cRLDistributionPoints: one DistributionPoint whose fullName holds the names */
+            static const unsigned char o_cdp[] = { 0x55, 0x1d, 0x1f }; cg_buf v = { 0 }, dps = { 0 }, dp = { 0 }, dpn = { 0 }, full = { 0 };
+            for (int i = 0; i < c->nian; i++) cg_tlv(&full, 0x80 | (c->ian[i].kind & 0x1f) | (c->ian[i].kind == CG_GN_DIR || c->ian[i].kind == CG_GN_OTHER ? 0x20 : 0), c->ian[i].v, c->ian[i].len);
+            cg_wrap(&dpn, 0xa0, &full); cg_wrap(&dp, 0xa0, &dpn); cg_wrap(&dps, 0x30, &dp); cg_wrap(&v, 0x30, &dps); cg_ext(&dpx, o_cdp, 3, 0, &v);
+            s.rawext = dpx.p; s.rawextlen = (int) dpx.n;
+        }
+        cg_cert lc; int mk = cg_make_cert(&s, &lc); cg_buf_free(&dpx); if (mk < 0) { vf_incon("certgen failed"); return; }
         psX509Cert_t *leaf = NULL; int prc = psX509ParseCert(NULL, lc.der, lc.len, &leaf, 0);
         uint32 flags0 = prc >= 0 ? leaf->authFailFlags : 0;
         vf_stat(prc >= 0 ? "certs_parsed" : "certs_rejected_by_parser", 1);
@@ -218,7 +241,9 @@ static void run_case(const ccase *c)
         break;
     }
     int shape = c->nsan * 10 + c->ncn, kinds = 0; for (int i = 0; i < c->nsan; i++) kinds |= 1 << (c->san[i].kind & 15);
-    vf_distinct("%s|%d|%d|%x|%d", c->cls, c->kindE, shape, kinds, (int) strlen(c->E));
+    int fkinds = 0; for (int i = 0; i < c->nian; i++) fkinds |= 1 << (c->ian[i].kind & 15);
+    if (c->nian) { vf_stat("cert_cases_with_foreign_general_names", 1); vf_distinct("%s|%d|%d|%x|%d|f%d|%x", c->cls, c->kindE, shape, kinds, (int) strlen(c->E), c->carrier, fkinds); }
+    else vf_distinct("%s|%d|%d|%x|%d", c->cls, c->kindE, shape, kinds, (int) strlen(c->E));
 }
 
 /* ------------------------------------------------------------------ grammar --- */
@@ -277,6 +302,38 @@ static void cn_case(const char *cls, const char *E, int canonical, int tag, cons
     push(&c);
 }
 
+/* Names of somebody else.  `names` sit in the issuerAltName and / or a cRLDistributionPoints fullName of a leaf whose own names are given by `subj`:
+ *   0 no SAN, no CN   1 no SAN, CN of another host   2 SAN = dNSName of another host   3 SAN = URI only, CN of another host   4 SAN = rfc822Name + iPAddress fillers
+ *   5 no SAN, CN = E (canonical: the CN fallback must survive)   6 SAN = the entry `own` (canonical: E itself) */
+static const int foreign_carriers[4] = { 1, 5, 2, 3 };
+static const char *carrier_name(int carrier) { return (carrier & 3) == 3 ? "issuer-alt+crl-dp" : (carrier & 2) ? "crl-dp-name" : "issuer-alt-name"; }
+static void foreign_case(const char *E, int kindE, int carrier, const ent *names, int nnames, int subj, const ent *own)
+{
+    ccase c; memset(&c, 0, sizeof c); snprintf(c.E, sizeof c.E, "%s", E); c.kindE = kindE; c.canonical = subj >= 5; c.carrier = carrier;
+    snprintf(c.cls, sizeof c.cls, "%s%s", subj == 5 ? "cn-exact:" : subj == 6 ? "san-exact:" : "", carrier_name(carrier));
+    c.nian = nnames > 6 ? 6 : nnames; memcpy(c.ian, names, c.nian * sizeof *names);
+    unsigned char ipb[4] = { 10, 9, 8, 7 };
+    if (subj == 1 || subj == 3) { c.ncn = 1; c.cn[0].tag = CG_T_UTF8; c.cn[0].len = 17; memcpy(c.cn[0].v, "someone.else.test", 17); }
+    if (subj == 5) { c.ncn = 1; c.cn[0].tag = CG_T_UTF8; c.cn[0].len = (int) strlen(E); memcpy(c.cn[0].v, E, c.cn[0].len); }
+    if (subj == 2) ent_str(&c.san[c.nsan++], CG_GN_DNS, "other.filler.test");
+    if (subj == 3) ent_str(&c.san[c.nsan++], CG_GN_URI, "http://filler.test/");
+    if (subj == 4) { ent_str(&c.san[c.nsan++], CG_GN_EMAIL, "someone@filler.test"); set_ent(&c.san[c.nsan++], CG_GN_IP, ipb, 4); }
+    if (subj == 6) c.san[c.nsan++] = *own;
+    push(&c);
+}
+static long foreign_serial;
+static void foreign_cases(const char *E, int kindE, const ent *own, ent lists[][6], const int *nlist, int nlists)
+{
+    /* names of the issuer that have nothing to do with E, of every kind: a certificate that is good for E on its own stays good */
+    ent U[6]; unsigned char ipb[4] = { 10, 9, 8, 7 };
+    ent_str(&U[0], CG_GN_DNS, "ca.issuer.test"); ent_str(&U[1], CG_GN_DNS, "*.issuer.test"); ent_str(&U[2], CG_GN_EMAIL, "pki@issuer.test"); set_ent(&U[3], CG_GN_IP, ipb, 4); ent_str(&U[4], CG_GN_URI, "http://ca.issuer.test/");
+    for (int ci = 0; ci < 4; ci++) { if (kindE == 0) foreign_case(E, kindE, foreign_carriers[ci], U, 5, 5, own); foreign_case(E, kindE, foreign_carriers[ci], U, 5, 6, own); }
+    /* names of the issuer that spell E (exactly, as wildcard, among names of all kinds): never good for E */
+    for (int l = 0; l < nlists; l++) for (int subj = 0; subj < 5; subj++) for (int ci = 0; ci < 4; ci++) {
+        if (!vf_thorough && ci >= 2 && (foreign_serial++ % 3)) continue;             /* quick: issuerAltName in both positions always, the cRLDistributionPoints carriers rotate */
+        foreign_case(E, kindE, foreign_carriers[ci], lists[l], nlist[l], subj, own);
+    }
+}
 static void host_cases(const char *E)
 {
     char lab[4][24], rest[64], rest2[64], x[128], up[64]; int n = 0; const char *p = E;
@@ -352,6 +409,13 @@ static void host_cases(const char *E)
     { ccase c; memset(&c, 0, sizeof c); strcpy(c.cls, "multi-cn"); snprintf(c.E, sizeof c.E, "%s", E); c.ncn = 2; c.cn[0].tag = c.cn[1].tag = CG_T_UTF8;
       c.cn[0].len = (int) L; memcpy(c.cn[0].v, E, L); c.cn[1].len = 10; memcpy(c.cn[1].v, "other.test", 10); push(&c);
       ccase e = c; e.cn[0] = c.cn[1]; e.cn[1] = c.cn[0]; push(&e); }
+    /* issuerAltName / cRLDistributionPoints names */
+    { ent own, L[4][6]; int nl[4], k = 0; unsigned char ipb[4] = { 10, 9, 8, 7 }; ent_str(&own, CG_GN_DNS, E);
+      ent_str(&L[k][0], CG_GN_DNS, E); nl[k++] = 1;
+      if (n >= 2) { snprintf(x, sizeof x, "*%s", rest); ent_str(&L[k][0], CG_GN_DNS, x); nl[k++] = 1; }
+      ent_str(&L[k][0], CG_GN_EMAIL, "pki@issuer.test"); ent_str(&L[k][1], CG_GN_DNS, E); set_ent(&L[k][2], CG_GN_IP, ipb, 4); snprintf(x, sizeof x, "https://%s/", E); ent_str(&L[k][3], CG_GN_URI, x); nl[k++] = 4;
+      ent_str(&L[k][0], CG_GN_URI, E); ent_str(&L[k][1], CG_GN_DNS, up); ent_str(&L[k][2], CG_GN_DNS, "ca.issuer.test"); nl[k++] = 3;
+      foreign_cases(E, 0, &own, L, nl, k); }
 }
 static void email_cases(const char *E)
 {
@@ -372,6 +436,10 @@ static void email_cases(const char *E)
     focus_s("wrong-type", E, 1, 0, CG_GN_URI, E);
     snprintf(x, sizeof x, "mailto:%s", E); focus_s("wrong-type", E, 1, 0, CG_GN_URI, x);
     cn_case("email-in-cn", E, 0, CG_T_UTF8, E, (int) L, 0); CASES[ncases - 1].kindE = 1;
+    { ent own, Ls[2][6]; int nl[2]; unsigned char ipb[4] = { 10, 9, 8, 7 }; ent_str(&own, CG_GN_EMAIL, E);
+      ent_str(&Ls[0][0], CG_GN_EMAIL, E); nl[0] = 1;
+      ent_str(&Ls[1][0], CG_GN_DNS, "ca.issuer.test"); ent_str(&Ls[1][1], CG_GN_EMAIL, E); set_ent(&Ls[1][2], CG_GN_IP, ipb, 4); snprintf(x, sizeof x, "mailto:%s", E); ent_str(&Ls[1][3], CG_GN_URI, x); nl[1] = 4;
+      foreign_cases(E, 1, &own, Ls, nl, 2); }
 }
 static void ip_cases(const unsigned char o[4])
 {
@@ -390,6 +458,10 @@ static void ip_cases(const unsigned char o[4])
     focus_s("wrong-type", E, 2, 0, CG_GN_DNS, E);               /* dNSName spelling the address */
     focus("wrong-type", E, 2, 0, CG_GN_IP, E, (int) strlen(E)); /* iPAddress holding the TEXT */
     snprintf(x, sizeof x, "%s", E); cn_case("ip-in-cn", E, 0, CG_T_UTF8, x, (int) strlen(x), 0); CASES[ncases - 1].kindE = 2;
+    { ent own, Ls[2][6]; int nl[2]; set_ent(&own, CG_GN_IP, o, 4);
+      set_ent(&Ls[0][0], CG_GN_IP, o, 4); nl[0] = 1;
+      ent_str(&Ls[1][0], CG_GN_DNS, E); ent_str(&Ls[1][1], CG_GN_EMAIL, "pki@issuer.test"); set_ent(&Ls[1][2], CG_GN_IP, o, 4); snprintf(x, sizeof x, "https://%s/", E); ent_str(&Ls[1][3], CG_GN_URI, x); nl[1] = 4;
+      foreign_cases(E, 2, &own, Ls, nl, 2); }
 }
 static void rand_label(char *o, int minl, int maxl)
 {
